@@ -89,7 +89,7 @@ def run(ctx):
                'values compared with rtol 1e-12 (erg/s goes through /d^2 * d^2)', 'float64 arrays (what the objects hold) are stored as float64')
     ctx.require_events('SED.read:post', 'SEDCube.read:post', 'roundtrip:sed', 'roundtrip:cube', 'roundtrip:convolved', 'cube:get_sed', 'roundtrip:sed-object-reused', 'roundtrip:cube-object-reused', 'roundtrip:sed-other-unit')
     ctx.require_regimes('sed:asc', 'sed:desc', 'cube:asc', 'cube:desc', 'cube:no-unc', 'cube:no-apertures', 'cube:memmap',
-                        'convolved:no-apertures', 'unit:erg/s', 'unit:Jy', 'cube:valid-flags', 'cube:axis-unit:nm', 'cube:axis-unit:GHz', 'cube:axis-unit:mm')
+                        'convolved:no-apertures', 'unit:erg/s', 'unit:Jy', 'cube:valid-flags', 'cube:unc-in-another-unit', 'sed:error-in-another-unit', 'cube:axis-unit:nm', 'cube:axis-unit:GHz', 'cube:axis-unit:mm')
     cfg = list(itertools.product(['asc', 'desc'], ['nu', 'wav'], list(FLUX_UNITS), [True, False], [True, False], [True, False]))
     reps = 1 if ctx.quick else 20
     d = ctx.newdir('c12')
@@ -128,6 +128,9 @@ def run(ctx):
                     s.apertures = (aps * u.au).to(apu)
                 s.flux = val[0][:, sl] * funit
                 s.error = unc[0][:, sl] * funit
+                if fu in ('mJy', 'Jy') and ic % 2 == 1:
+                    s.error = (unc[0][:, sl] * funit).to(u.Jy if fu == 'mJy' else u.mJy)
+                    ctx.regime('sed:error-in-another-unit')
                 path = os.path.join(d, 'sed_%d.fits' % ic)
                 ok = True
                 try:
@@ -248,6 +251,10 @@ def run(ctx):
             c.val = val[:, :, sl] * funit
             if with_unc:
                 c.unc = unc[:, :, sl] * funit
+                if fu in ('mJy', 'Jy') and ic % 2 == 1:
+                    # uncertainties stored in another unit than the values
+                    c.unc = (unc[:, :, sl] * funit).to(u.Jy if fu == 'mJy' else u.mJy)
+                    ctx.regime('cube:unc-in-another-unit')
             valid_in = None
             if n_m >= 2 and rng.random() < 0.5:
                 valid_in = rng.random(n_m) < 0.6
